@@ -1,7 +1,7 @@
 (* C10 -- RDH sanity and running checks implement the documented rules exactly.
    Property theorems only. *)
 From Coq Require Import List NArith.
-From FP Require Import Model.Base Model.Rdh Model.RdhChecks Spec.RdhRules Proofs.RdhFacts Proofs.C10_proofs Model.CdpRunning Model.Scanner Model.Link Proofs.C10_run.
+From FP Require Import Model.Base Model.Rdh Model.RdhChecks Spec.RdhRules Proofs.RdhFacts Proofs.C10_proofs Model.CdpRunning Model.Scanner Model.Link Proofs.C10_run Proofs.C10_running_pass.
 From FP Require Import Model.Collector Model.System Spec.Framing Spec.GroundTruth Proofs.C03_proofs Proofs.C14_proofs Proofs.C10_whole.
 From FP Require Gen.Facts.
 Import ListNotations.
@@ -60,9 +60,50 @@ Proof.
                          H1 H2 H3 H4 H5 H6 ff s shown e id op0 rest).
 Qed.
 
+(* A VALIDATOR'S WHOLE PASS IN `check all` (no target; the packets of one link in arrival order, any number, any contents): packet by packet
+   and in packet order the pass emits m10 ++ m11, where m10 is one [E10] at the packet's offset exactly when the RDH violates a documented
+   sanity condition (relative to the first RDH's header id or the configured version) and m11 is at most one [E11] at the packet's offset,
+   present -- for every prefix that begins at an HBF start and does not wrap the page counter -- exactly when the RDH breaks the documented
+   running rule GIVEN ALL THE RDHs BEFORE IT: the reference of each comparison is the immediate predecessor, reported or not (seed C10-J kept
+   the last error-free RDH instead) *)
+Theorem C10_running_pass_exact : forall custom h0 hs, Forall (fun h => rdh_bytes_ok (hp_bytes h)) (h0 :: hs) ->
+  let first := match custom with Some v => v | None => h_header_id (hp_bytes h0) end in
+  let all := h0 :: hs in
+  exists per, run_validator (all_cfg custom) (map to_cdp all) = Ok (concat per) /\ length per = length all /\
+    forall k h, nth_error all k = Some h ->
+      exists m10 m11, nth_error per k = Some (m10 ++ m11) /\
+        ((violates first h = false /\ m10 = []) \/ (violates first h = true /\ exists m, m10 = [m] /\ is_e10_at (hp_off h) m)) /\
+        (m11 = [] \/ exists m, m11 = [m] /\ is_e11_at (hp_off h) m) /\
+        (starts_at_hbf (map hp_bytes (firstn (S k) all)) -> no_wrap (map hp_bytes (firstn (S k) all)) 0 ->
+         (m11 <> [] <-> running_violation (map hp_bytes (firstn k all)) (hp_bytes h) = true)).
+Proof. exact c10_running_pass. Qed.
+
+(* non-vacuity, on the shape that tells the predecessor from the last error-free RDH: pages 0,1 at orbit 5, page 2 at orbit 6 (reported),
+   page 3 with the stop bit back at orbit 5 (reported AGAIN: its predecessor is page 2), then a clean two-page HBF at orbit 7 *)
+Definition c10_rh (orbit page stop : N) : list N :=
+  [7;64;42;80;0;32;0;0; 64;0;64;0;0;0;24;0] ++ [0;0;0;0; orbit;0;0;0] ++ [2;0;0;0;0;0;0;0; 3;106;0;0; page;0; stop;0] ++ repeat 0 24.
+Definition c10_seq : list hpkt :=
+  [ {| hp_bytes := c10_rh 5 0 0; hp_payload := []; hp_off := 0 |};   {| hp_bytes := c10_rh 5 1 0; hp_payload := []; hp_off := 64 |};
+    {| hp_bytes := c10_rh 6 2 0; hp_payload := []; hp_off := 128 |}; {| hp_bytes := c10_rh 5 3 1; hp_payload := []; hp_off := 192 |};
+    {| hp_bytes := c10_rh 7 0 0; hp_payload := []; hp_off := 256 |}; {| hp_bytes := c10_rh 7 1 1; hp_payload := []; hp_off := 320 |} ].
+Example C10_running_pass_nonvacuous :
+  Forall (fun h => rdh_bytes_ok (hp_bytes h)) c10_seq /\
+  starts_at_hbf (map hp_bytes c10_seq) /\ no_wrap (map hp_bytes c10_seq) 0 /\
+  (exists ms, run_validator (all_cfg None) (map to_cdp c10_seq) = Ok ms /\
+     map (fun v => match v with VErr e => (e_off e, e_code e) | _ => (0, 0) end) ms = [(128, 11); (192, 11)]) /\
+  map (fun k => running_violation (map hp_bytes (firstn k c10_seq)) (hp_bytes (nth k c10_seq (nth 0 c10_seq {| hp_bytes := []; hp_payload := []; hp_off := 0 |}))))
+      [0; 1; 2; 3; 4; 5]%nat = [false; false; true; true; false; false].
+Proof.
+  split; [repeat constructor; apply rdh_bytes_okb_sound; vm_compute; reflexivity|].
+  split; [vm_compute; split; reflexivity|]. split; [vm_compute; repeat split; reflexivity|].
+  split; [eexists; split; vm_compute; reflexivity|vm_compute; reflexivity].
+Qed.
+
 Print Assumptions C10_sanity_iff.
 Print Assumptions C10_sanity_first.
 Print Assumptions C10_sanity_latch_stable.
 Print Assumptions C10_running_iff.
 Print Assumptions C10_sanity_pass_exact.
 Print Assumptions C10_whole_run_sanity.
+Print Assumptions C10_running_pass_exact.
+Print Assumptions C10_running_pass_nonvacuous.
